@@ -67,6 +67,9 @@ pub fn run(ctx: &mut Ctx) {
         for e in &ev {
             let nrm = e.x.iter().chain(&e.s).chain(&e.z).fold(0.0f64, |m, v| m.max(v.abs()));
             println!("it {:3} {:?} a {:.2e} tau {:.3e} kap {:.3e} mu {:.3e} |xsz| {:.2e} pres {:.2e} dres {:.2e} bz {:.3e} qx {:.3e} {}", e.iterations, e.kind, e.step_length, e.τ, e.κ, e.μ, nrm, e.res_primal, e.res_dual, e.dot_bz, e.dot_qx, problem::status_name(e.status));
+            if std::env::var("VERIF_DBG_VECS").is_ok() {
+                println!("       s {:?}\n       z {:?}", e.s, e.z);
+            }
         }
         return;
     }
